@@ -80,7 +80,7 @@ func (TrafficOrderMonitor) OnWrite(x *Ctx, w *Write) {
 				} else if ro.Status.BlueGreenStatus != nil {
 					stableRev = ro.Status.BlueGreenStatus.StableRevision
 				}
-				if v != nil && ts.StableSvcExists && ts.StablePinned != stableRev && ro.Spec.Strategy.BlueGreen == nil {
+				if v != nil && ts.StableSvcExists && ts.StablePinned != shortHash(stableRev) && ro.Spec.Strategy.BlueGreen == nil {
 					x.Violate("C03/pin/first-step-pods-before-stable-pinned", fmt.Sprintf("step 1 configures traffic but the workload was allowed to create new-revision pods (%s) while the stable Service selector is %q, not pinned to the stable revision %q", v.KnobText, ts.StablePinned, stableRev))
 				}
 			}
@@ -241,7 +241,7 @@ func (VoidMonitor) OnWrite(x *Ctx, w *Write) {
 		if ro != nil && ro.Status.CanaryStatus != nil {
 			stable = ro.Status.CanaryStatus.StableRevision
 		}
-		if ts.StablePinned != "" && ts.StablePinned == stable && ts.CanaryShare < 100 && !requested(x.Mon, "rollback", "release3", "exit") {
+		if ts.StablePinned != "" && ts.StablePinned == shortHash(stable) && ts.CanaryShare < 100 && !requested(x.Mon, "rollback", "release3", "exit") {
 			x.Violate("C04/order/last-stable-pod-before-unpin", fmt.Sprintf("BatchRelease controller allowed every pod to be updated (%s) while the stable Service is still pinned to the stable revision %q and receives %d%% of the traffic", v.KnobText, stable, 100-ts.CanaryShare))
 		}
 	}
